@@ -79,7 +79,7 @@ def draw_case_scenario(seed, tier, force=None):
         # beta_tolerance is a schedule option of SMCSampler.sample only: drive the base-class method, with tolerances
         # from the default to coarse ones whose multiples miss 1.0 in floating point, and demanding ESS targets
         scn["api"] = "base_smc"
-        sk["beta_tolerance"] = float(pick(rng, [1e-6, 1e-4, 1e-2, 0.1, 0.15, 0.3, 0.4]))
+        sk["beta_tolerance"] = float(pick(rng, [1e-10, 1e-8, 1e-6, 1e-4, 1e-2, 0.1, 0.15, 0.3, 0.4]))
         if not isinstance(sk.get("target_efficiency"), list):
             sk["target_efficiency"] = float(pick(rng, [0.5, 0.9, 0.99]))
         extra = extra + "+tol"
